@@ -93,9 +93,19 @@ def make_case(r):
     # keep runs short: restrict the mutators
     opts += ['--disable-all', '--erase-node', '--constants',
              '--substitute-children']
-    desc = {'input': text, 'rules': rules, 'fault': fault,
+    cc_rules = None
+    if fault in ('sleep', 'spin1', 'forksleep') and r.random() < 0.5:
+        # the *cross-check* command is the one that misbehaves; its time
+        # limit is explicit or automatic (1.5 x (its golden run + 1 s))
+        cc_rules = [x for x in rules if 'fault=' in x] + [
+            realrun.rule('all', 0, 'cc ok\n', '')]
+        rules = [x for x in rules if 'fault=' not in x]
+        if r.random() < 0.5:
+            opts += ['--timeout-cc', str(r.choice([0.3, 0.5]))]
+    desc = {'input': text, 'rules': rules, 'fault': fault, 'cc_rules': cc_rules,
             'fault_conditions': used, 'strategy': strat, 'jobs': j,
             'timeout': tmo, 'memout': memout}
+    desc['cc'] = cc_rules is not None
     return text, rules, opts, limit, desc
 
 
@@ -263,8 +273,9 @@ def shard(args):
             text, rules, opts, limit, desc = make_case(r)
             wd = os.path.join(base, f'run{i}')
             run = realrun.run_ddsmt(wd, text, rules, opts=opts,
+                                    cc_spec=desc.get('cc_rules'),
                                     launcher={'monitors': ['check', 'exec']},
-                                    timeout=240)
+                                    timeout=120 if desc.get('cc') else 240)
             judge(res, run, limit, desc)
             res.count('runs')
             if any(e.get('fault') for e in run.cmdlog[1:]):
